@@ -125,6 +125,72 @@ class PTr(Tr):
         return super().cond(e)
 
 
+
+# ------------------------------------------------------------------------------------------------
+# same-module straight-line helpers are inlined symbolically before translation
+# ------------------------------------------------------------------------------------------------
+# callees the translators map to Lean functions themselves (translated items / modelled primitives): never inlined
+KEEP_CALLS = {'jacobi', 'recurrence_abc', 'zernike_norm', 'kronecker', 'f_qbfs', 'g_qbfs', 'h_qbfs', 'hermite_He', 'hermite_H', 'jacobi_seq',
+              'jacobi_der_seq', 'dickson1_seq', 'dickson2_seq', 'optimize_xy_separable', '_as_sequence', 'laguerre', 'laguerre_seq'}
+
+
+def inline_helpers(fn, mod, depth=3):
+    """Return a copy of `fn` in which every call `h(a1, …, ak)` to a function `h` defined at the top level of the same module whose
+    body is (docstring +) a single `return <expr>` is replaced by `<expr>` with the parameters substituted by the argument
+    expressions (positional or keyword arguments, no defaults needed, no *args).  Recursive / multi-statement helpers are left alone."""
+    import copy
+    single = {}
+    for f in mod.body:
+        if isinstance(f, ast.FunctionDef) and not f.decorator_list:
+            body = [st for st in f.body if not (isinstance(st, ast.Expr) and isinstance(st.value, ast.Constant))]
+            if len(body) == 1 and isinstance(body[0], ast.Return) and body[0].value is not None \
+                    and not f.args.vararg and not f.args.kwarg and not f.args.kwonlyargs:
+                single[f.name] = (f, body[0].value)
+
+    class Sub(ast.NodeTransformer):
+        def __init__(self, m):
+            self.m = m
+
+        def visit_Name(self, node):
+            if isinstance(node.ctx, ast.Load) and node.id in self.m:
+                return copy.deepcopy(self.m[node.id])
+            return node
+
+    class Inl(ast.NodeTransformer):
+        changed = False
+
+        def visit_Call(self, node):
+            self.generic_visit(node)
+            if isinstance(node.func, ast.Name) and node.func.id in single and node.func.id != fn.name and node.func.id not in KEEP_CALLS:
+                f, ret = single[node.func.id]
+                params = [a.arg for a in f.args.args]
+                m = {}
+                for p_, a in zip(params, node.args):
+                    m[p_] = a
+                for kw in node.keywords:
+                    if kw.arg in params and kw.arg not in m:
+                        m[kw.arg] = kw.value
+                ndef = len(f.args.defaults)
+                for p_, d in zip(params[len(params) - ndef:], f.args.defaults):
+                    m.setdefault(p_, d)
+                if set(m) != set(params) or len(node.args) > len(params):
+                    return node
+                Inl.changed = True
+                return Sub(m).visit(copy.deepcopy(ret))
+            return node
+    out = copy.deepcopy(fn)
+    for _ in range(depth):
+        Inl.changed = False
+        out = Inl().visit(out)
+        if not Inl.changed:
+            break
+    return ast.fix_missing_locations(out)
+
+
+def get_def_inlined(mod, name):
+    return inline_helpers(get_def(mod, name), mod)
+
+
 def _proj(k, n):
     """k-th component (0-based) of a right-nested n-tuple `s`"""
     if n == 1:
@@ -417,7 +483,7 @@ def generate(repo):
 
     # ---- recurrence_abc(n, alpha, beta): n is read as a scalar (it only meets alpha, beta arithmetically)
     def abc():
-        fn = get_def(jac, 'recurrence_abc')
+        fn = get_def_inlined(jac, 'recurrence_abc')
         return translate_fn(fn, 'abc', [], ['n', 'alpha', 'beta'], extra_binders='[DecidableEq K] ', ret='K × K × K')
     g.item('recurrence_abc', 'prysm/polynomials/jacobi.py:recurrence_abc', lambda: get_def(jac, 'recurrence_abc'), abc,
            f'def abc [DecidableEq K] (n alpha beta : K) : K × K × K :=\n'
@@ -426,14 +492,14 @@ def generate(repo):
 
     # ---- weight(alpha, beta, x): the weight the library reports for the Jacobi family (real powers as a parameter `rpow`)
     def weight():
-        return translate_fn(get_def(jac, 'weight'), 'weight', [], ['alpha', 'beta', 'x'], tr_kwargs={'rpow': 'rpow'},
+        return translate_fn(get_def_inlined(jac, 'weight'), 'weight', [], ['alpha', 'beta', 'x'], tr_kwargs={'rpow': 'rpow'},
                             extra_binders='(rpow : K → K → K) ')
     g.item('weight', 'prysm/polynomials/jacobi.py:weight', lambda: get_def(jac, 'weight'), weight,
            'def weight (rpow : K → K → K) (alpha beta x : K) : K := rpow (Num.ofInt 1 - x) alpha * rpow (Num.ofInt 1 + x) beta')
 
     # ---- jacobi(n, alpha, beta, x)
     def jacobi():
-        fn = get_def(jac, 'jacobi')
+        fn = get_def_inlined(jac, 'jacobi')
         return translate_fn(fn, 'jacobi', ['n'], ['alpha', 'beta', 'x'], tuple_funcs=ABC_TUPLE,
                             extra_binders='[DecidableEq K] ')
     g.item('jacobi', 'prysm/polynomials/jacobi.py:jacobi', lambda: get_def(jac, 'jacobi'), jacobi,
@@ -447,7 +513,7 @@ def generate(repo):
             (dic, 'dickson.py', 'dickson1', 'dickson1', ['alpha', 'x'], 'dickson1 n.toNat alpha x'),
             (dic, 'dickson.py', 'dickson2', 'dickson2', ['alpha', 'x'], 'dickson2 n.toNat alpha x')]:
         def build(mod=mod, py=py, lean=lean, ks=ks):
-            return translate_fn(get_def(mod, py), lean, ['n'], ks)
+            return translate_fn(get_def_inlined(mod, py), lean, ['n'], ks)
         g.item(py, f'prysm/polynomials/{rel}:{py}', (lambda mod=mod, py=py: get_def(mod, py)), build,
                f'def {lean} (n : Int) ({" ".join(ks)} : K) : K := {M}.{model}')
 
@@ -457,19 +523,19 @@ def generate(repo):
     fall = {1: 'cheby1', 2: 'cheby2', 3: 'cheby3', 4: 'cheby4'}
     for kind in (1, 2, 3, 4):
         def build(kind=kind):
-            return translate_fn(get_def(che, f'cheby{kind}'), f'cheby{kind}', ['n'], ['x'], tr_kwargs={'mixed': JAC},
+            return translate_fn(get_def_inlined(che, f'cheby{kind}'), f'cheby{kind}', ['n'], ['x'], tr_kwargs={'mixed': JAC},
                                 extra_binders='[DecidableEq K] ')
         g.item(f'cheby{kind}', f'prysm/polynomials/cheby.py:cheby{kind}', (lambda kind=kind: get_def(che, f'cheby{kind}')), build,
                f'def cheby{kind} [DecidableEq K] (n : Int) (x : K) : K := {M}.cheby{kind} n.toNat x')
 
     def legendre():
-        return translate_fn(get_def(leg, 'legendre'), 'legendre', ['n'], ['x'], tr_kwargs={'mixed': JAC},
+        return translate_fn(get_def_inlined(leg, 'legendre'), 'legendre', ['n'], ['x'], tr_kwargs={'mixed': JAC},
                             extra_binders='[DecidableEq K] ')
     g.item('legendre', 'prysm/polynomials/legendre.py:legendre', lambda: get_def(leg, 'legendre'), legendre,
            f'def legendre [DecidableEq K] (n : Int) (x : K) : K := {M}.legendre n.toNat x')
 
     def qcon():
-        return translate_fn(get_def(qp, 'Qcon'), 'qcon', ['n'], ['x'], tr_kwargs={'mixed': JAC}, extra_binders='[DecidableEq K] ')
+        return translate_fn(get_def_inlined(qp, 'Qcon'), 'qcon', ['n'], ['x'], tr_kwargs={'mixed': JAC}, extra_binders='[DecidableEq K] ')
     g.item('Qcon', 'prysm/polynomials/qpoly.py:Qcon', lambda: get_def(qp, 'Qcon'), qcon,
            f'def qcon [DecidableEq K] (n : Int) (x : K) : K := {M}.qcon n.toNat x')
 
@@ -477,13 +543,13 @@ def generate(repo):
     KRON = {'kronecker': (f'{M}.kroneckerK', 'ii')}
 
     def znorm():
-        return translate_fn(get_def(zer, 'zernike_norm'), 'zernikeNorm', ['n', 'm'], [], tr_kwargs={'mixed': KRON, 'sqrt': 'sqrt'},
+        return translate_fn(get_def_inlined(zer, 'zernike_norm'), 'zernikeNorm', ['n', 'm'], [], tr_kwargs={'mixed': KRON, 'sqrt': 'sqrt'},
                             extra_binders='(sqrt : K → K) ')
     g.item('zernike_norm', 'prysm/polynomials/zernike.py:zernike_norm', lambda: get_def(zer, 'zernike_norm'), znorm,
            f'def zernikeNorm (sqrt : K → K) (n m : Int) : K := sqrt ({M}.zernikeNormSq n.toNat m)')
 
     def znm():
-        return translate_fn(get_def(zer, 'zernike_nm'), 'zernikeNm', ['n', 'm'], ['r', 't'], bool_params=['norm'],
+        return translate_fn(get_def_inlined(zer, 'zernike_nm'), 'zernikeNm', ['n', 'm'], ['r', 't'], bool_params=['norm'],
                             tr_kwargs={'mixed': {**JAC, 'zernike_norm': ('zernikeNorm sqrt', 'ii')},
                                        'unary': {'np.sin': 'sinf', 'np.cos': 'cosf'}},
                             extra_binders='[DecidableEq K] (sinf cosf sqrt : K → K) ')
@@ -494,7 +560,7 @@ def generate(repo):
 
     # ---- XY, Hopkins
     def xy():
-        fn = get_def(xyf, 'xy')
+        fn = get_def_inlined(xyf, 'xy')
         stm = [st for st in fn.body if not (isinstance(st, ast.Expr) and isinstance(st.value, ast.Constant))]
         # the only statement besides the return may be the separable-grid shortcut, which reshapes x and y (point-wise identity)
         if len(stm) == 2 and isinstance(stm[0], ast.If) and not stm[0].orelse \
@@ -508,7 +574,7 @@ def generate(repo):
            f'def xy (m n : Int) (x y : K) : K := {M}.xy m.toNat n.toNat x y')
 
     def hopkins():
-        return translate_fn(get_def(ini, 'hopkins'), 'hopkins', ['a', 'b', 'c'], ['r', 't', 'H'],
+        return translate_fn(get_def_inlined(ini, 'hopkins'), 'hopkins', ['a', 'b', 'c'], ['r', 't', 'H'],
                             tr_kwargs={'unary': {'np.sin': 'sinf', 'np.cos': 'cosf'}}, extra_binders='(sinf cosf : K → K) ')
     g.item('hopkins', 'prysm/polynomials/__init__.py:hopkins', lambda: get_def(ini, 'hopkins'), hopkins,
            f'def hopkins (sinf cosf : K → K) (a b c : Int) (r t H : K) : K :=\n'
@@ -518,14 +584,14 @@ def generate(repo):
     REC = {'f_qbfs': f'{M}.qbfsFi sqrt', 'g_qbfs': f'{M}.qbfsGi sqrt', 'h_qbfs': f'{M}.qbfsHi sqrt'}
     for (py, lean) in (('f_qbfs', 'qbfsFBody'), ('g_qbfs', 'qbfsGBody'), ('h_qbfs', 'qbfsHBody')):
         def build(py=py, lean=lean):
-            fn = get_def(qp, py)
+            fn = get_def_inlined(qp, py)
             (par,) = [a.arg for a in fn.args.args]
             return translate_fn(fn, lean, [par], [], tr_kwargs={'intfuncs': REC, 'sqrt': 'sqrt'}, extra_binders='(sqrt : K → K) ')
         g.item(py, f'prysm/polynomials/qpoly.py:{py}', (lambda py=py: get_def(qp, py)), build,
                f'def {lean} (sqrt : K → K) (k : Int) : K := {M}.qbfs{py[0].upper()}i sqrt k')
 
     def qbfs():
-        fn = get_def(qp, 'Qbfs')
+        fn = get_def_inlined(qp, 'Qbfs')
         intf = {'g_qbfs': f'{M}.qbfsGi sqrt', 'h_qbfs': f'{M}.qbfsHi sqrt', 'f_qbfs': f'{M}.qbfsFi sqrt'}
         return translate_fn(fn, 'qbfs', ['n'], ['x'], tr_kwargs={'intfuncs': intf, 'sqrt': 'sqrt'},
                             extra_binders='(sqrt : K → K) ')
